@@ -45,7 +45,7 @@ def noise_level(snap, friction_noise=2e-9):
                 continue
             if t == "pipe" and "dp_friction_loss_bar" in r and abs(r["dp_friction_loss_bar"]) <= friction_noise:
                 out = max(out, abs(m))
-            elif t in ("valve", "heat_exchanger") and abs(r.get("v_mean_m_per_s", 1.0)) <= 1e-6:
+            elif t in ("valve", "heat_exchanger", "flow_control") and (abs(r.get("v_mean_m_per_s", 1.0)) <= 1e-6 or abs(m) <= 1e-7):
                 out = max(out, abs(m))
     return out
 
@@ -104,15 +104,21 @@ def diff_snapshots(sa, sb, rtol=1e-7, atol=1e-9, name_map=None, reversed_names=(
         if not (math.isnan(fa) or math.isnan(fb)) and abs(fa) <= friction_noise and abs(fb) <= friction_noise:
             noise = max(noise, abs(ra["mdot_from_kg_per_s"]), abs(rb["mdot_from_kg_per_s"]))
     # the same for valves / heat exchangers (no friction column): a velocity below 1e-6 m/s gives zeta rho/2 v^2 < 1e-13 bar
-    for t in ("valve", "heat_exchanger"):
+    # exchangers and flow controllers report no velocity: their loss is quadratic in the flow (or absent), a flow of 1e-7 kg/s
+    # produces less than 1e-15 bar
+    for t in ("valve", "heat_exchanger", "flow_control"):
         for name, ra in sa.get(t, {}).items():
             nb = (name_map or {}).get(name, name)
             rb = sb.get(t, {}).get(nb) if nb is not None else None
-            if rb is None or "v_mean_m_per_s" not in ra:
+            if rb is None or "mdot_from_kg_per_s" not in ra:
                 continue
-            va_, vb_ = ra["v_mean_m_per_s"], rb["v_mean_m_per_s"]
-            if not (math.isnan(va_) or math.isnan(vb_)) and abs(va_) <= 1e-6 and abs(vb_) <= 1e-6:
-                noise = max(noise, abs(ra["mdot_from_kg_per_s"]), abs(rb["mdot_from_kg_per_s"]))
+            ma_, mb_ = ra["mdot_from_kg_per_s"], rb["mdot_from_kg_per_s"]
+            if math.isnan(ma_) or math.isnan(mb_):
+                continue
+            va_, vb_ = ra.get("v_mean_m_per_s", float("nan")), rb.get("v_mean_m_per_s", float("nan"))
+            slow = not (math.isnan(va_) or math.isnan(vb_)) and abs(va_) <= 1e-6 and abs(vb_) <= 1e-6
+            if slow or (abs(ma_) <= 1e-7 and abs(mb_) <= 1e-7):
+                noise = max(noise, abs(ma_), abs(mb_))
     zero_flow = max(zero_flow, 2 * noise)
     for t, rows in sa.items():
         if only_tables is not None and t not in only_tables:
